@@ -54,10 +54,11 @@ Qed.
 Section Checkers.
 Variable NH : bytes -> list entry -> bytes.
 Variable by_id : bool.
+Variable old : bool.
 Variable cands : list (list nat).
 
 Definition guard_b (s : heap) (o : op) : bool :=
-  existsb (fun rl => ranked_b rl (fst (step NH by_id s o))) cands &&
+  existsb (fun rl => ranked_b rl (fst (step NH by_id old s o))) cands &&
   match o with
   | OUpdate p l => nodup_b (map fst l) && forallb (fun nc => plain_b (fst nc) && (snd nc <? length s)) l
   | _ => true
@@ -65,10 +66,10 @@ Definition guard_b (s : heap) (o : op) : bool :=
 Fixpoint guarded_b (s : heap) (h : list op) : bool :=
   match h with
   | [] => true
-  | o :: h' => guard_b s o && guarded_b (fst (step NH by_id s o)) h'
+  | o :: h' => guard_b s o && guarded_b (fst (step NH by_id old s o)) h'
   end.
 
-Lemma guard_b_sound : forall s o, guard_b s o = true -> guard NH by_id s o.
+Lemma guard_b_sound : forall s o, guard_b s o = true -> guard NH by_id old s o.
 Proof.
   intros s o H. apply andb_true_iff in H. destruct H as [A B]. split.
   - apply existsb_exists in A. destruct A as (rl & _ & Hr). exists (rank_of rl). apply ranked_b_sound. exact Hr.
@@ -77,7 +78,7 @@ Proof.
     apply andb_true_iff in F. destruct F as [P L]. split; [apply plain_b_sound; exact P | apply Nat.ltb_lt; exact L].
 Qed.
 
-Lemma guarded_b_sound : forall h s, guarded_b s h = true -> guarded NH by_id s h.
+Lemma guarded_b_sound : forall h s, guarded_b s h = true -> guarded NH by_id old s h.
 Proof.
   induction h as [|o h IH]; intros s H; simpl in *; auto.
   apply andb_true_iff in H. destruct H as [A B]. split; [apply guard_b_sound; exact A | apply IH; exact B].
@@ -156,16 +157,16 @@ Definition h_shared : list op :=
 
 (* the old removal (==) leaves p2 and the root stale *)
 Lemma old_remove_refuted :
-  exists NH h n hv, (forall d es, NH d es <> []) /\ guarded NH false [] h /\
-    snd (step NH false (final NH false [] h) (OHash n)) = OutHash hv /\
-    ~ Fresh NH (final NH false [] h) n hv.
+  exists NH h n hv, (forall d es, NH d es <> []) /\ guarded NH false false [] h /\
+    snd (step NH false false (final NH false false [] h) (OHash n)) = OutHash hv /\
+    ~ Fresh NH (final NH false false [] h) n hv.
 Proof.
   exists NH0, h_shared, 3.
-  destruct (snd (step NH0 false (final NH0 false [] h_shared) (OHash 3))) as [| | |hv| | |] eqn:E;
+  destruct (snd (step NH0 false false (final NH0 false false [] h_shared) (OHash 3))) as [| | |hv| | |] eqn:E;
     try (vm_compute in E; discriminate).
-  exists hv. split; [apply NH0_truthy|]. split; [apply (guarded_b_sound NH0 false cands0); vm_compute; reflexivity|].
+  exists hv. split; [apply NH0_truthy|]. split; [apply (guarded_b_sound NH0 false false cands0); vm_compute; reflexivity|].
   split; [reflexivity|]. intro F.
-  destruct (fresh_fn NH0 10 (final NH0 false [] h_shared) 3) as [hf|] eqn:Ef; [|vm_compute in Ef; discriminate].
+  destruct (fresh_fn NH0 10 (final NH0 false false [] h_shared) 3) as [hf|] eqn:Ef; [|vm_compute in Ef; discriminate].
   pose proof (fresh_fn_sound NH0 _ _ _ _ Ef) as Ff.
   pose proof (proj1 (Fresh_det NH0 _) _ _ F _ Ff) as Eq. subst hf.
   vm_compute in E. vm_compute in Ef. inversion E as [E']. rewrite <- E' in Ef. discriminate.
@@ -173,34 +174,44 @@ Qed.
 
 (* with the removal by identity the same history is fine *)
 Lemma shared_history_fresh :
-  guarded NH0 true [] h_shared /\
-  exists hv, snd (step NH0 true (final NH0 true [] h_shared) (OHash 3)) = OutHash hv /\
-             fresh_fn NH0 10 (final NH0 true [] h_shared) 3 = Some hv.
+  guarded NH0 true false [] h_shared /\
+  exists hv, snd (step NH0 true false (final NH0 true false [] h_shared) (OHash 3)) = OutHash hv /\
+             fresh_fn NH0 10 (final NH0 true false [] h_shared) 3 = Some hv.
 Proof.
-  split; [apply (guarded_b_sound NH0 true cands0); vm_compute; reflexivity|].
+  split; [apply (guarded_b_sound NH0 true false cands0); vm_compute; reflexivity|].
   eexists. split; vm_compute; reflexivity.
 Qed.
 
-(* a node whose hash is falsy (b"") stops invalidate_hash early: c = 0 has the
-   empty hash, p = 1 holds it, the parent is read, c gets a child, the parent
-   is read again *)
+(* the previous code tested the truthiness of __hash: a node whose hash is
+   falsy (b"") stopped invalidate_hash early.  c = 0 has the empty hash, p = 1
+   holds it, the parent is read, c gets a child, the parent is read again *)
 Definition h_falsy : list op :=
   [ONew KNode [0%N]; ONew KNode kx; ONew KNode ky; OSet 1 na 0; OHash 1; OSet 0 nb 2].
 
-Lemma falsy_hash_refuted :
-  exists NH h n hv, guarded NH true [] h /\
-    snd (step NH true (final NH true [] h) (OHash n)) = OutHash hv /\
-    ~ Fresh NH (final NH true [] h) n hv.
+Lemma falsy_hash_refuted_old :
+  exists NH h n hv, guarded NH true true [] h /\
+    snd (step NH true true (final NH true true [] h) (OHash n)) = OutHash hv /\
+    ~ Fresh NH (final NH true true [] h) n hv.
 Proof.
   exists NH1, h_falsy, 1.
-  destruct (snd (step NH1 true (final NH1 true [] h_falsy) (OHash 1))) as [| | |hv| | |] eqn:E;
+  destruct (snd (step NH1 true true (final NH1 true true [] h_falsy) (OHash 1))) as [| | |hv| | |] eqn:E;
     try (vm_compute in E; discriminate).
-  exists hv. split; [apply (guarded_b_sound NH1 true [[]; [1; 2; 0]]); vm_compute; reflexivity|].
+  exists hv. split; [apply (guarded_b_sound NH1 true true [[]; [1; 2; 0]]); vm_compute; reflexivity|].
   split; [reflexivity|]. intro F.
-  destruct (fresh_fn NH1 10 (final NH1 true [] h_falsy) 1) as [hf|] eqn:Ef; [|vm_compute in Ef; discriminate].
+  destruct (fresh_fn NH1 10 (final NH1 true true [] h_falsy) 1) as [hf|] eqn:Ef; [|vm_compute in Ef; discriminate].
   pose proof (fresh_fn_sound NH1 _ _ _ _ Ef) as Ff.
   pose proof (proj1 (Fresh_det NH1 _) _ _ F _ Ff) as Eq. subst hf.
   vm_compute in E. vm_compute in Ef. inversion E as [E']. rewrite <- E' in Ef. discriminate.
+Qed.
+
+(* with the `is None` test the same history, same hash function, is fine *)
+Lemma falsy_history_fresh :
+  guarded NH1 true false [] h_falsy /\
+  exists hv, snd (step NH1 true false (final NH1 true false [] h_falsy) (OHash 1)) = OutHash hv /\
+             fresh_fn NH1 10 (final NH1 true false [] h_falsy) 1 = Some hv.
+Proof.
+  split; [apply (guarded_b_sound NH1 true false [[]; [1; 2; 0]]); vm_compute; reflexivity|].
+  eexists. split; vm_compute; reflexivity.
 Qed.
 
 (* non-vacuity: a diamond with two structurally equal parents sharing a
@@ -212,14 +223,13 @@ Definition h_diamond : list op :=
    OCollect 3; OReset 3; OCollect 3; OHash 3].
 
 Lemma guards_satisfiable :
-  (forall d es, NH0 d es <> []) /\
-  guarded NH0 true [] h_diamond /\
-  length (final NH0 true [] h_diamond) = 5 /\
+  guarded NH0 true false [] h_diamond /\
+  length (final NH0 true false [] h_diamond) = 5 /\
   (* before the delete: c has the two parents p2, p1, which are == and distinct *)
-  (let s := final NH0 true [] (firstn 10 h_diamond) in
+  (let s := final NH0 true false [] (firstn 10 h_diamond) in
    (exists y, nth_error s 0 = Some y /\ parents y = [2; 1]) /\ node_eqb (S (length s)) s 1 2 = true).
 Proof.
-  split; [apply NH0_truthy|]. split; [apply (guarded_b_sound NH0 true cands0); vm_compute; reflexivity|].
+  split; [apply (guarded_b_sound NH0 true false cands0); vm_compute; reflexivity|].
   split; [vm_compute; reflexivity|]. split.
   - eexists. split; vm_compute; reflexivity.
   - vm_compute. reflexivity.
@@ -236,9 +246,9 @@ Proof.
 Qed.
 
 Lemma c14_satisfiable :
-  oracle_ok id_oracle /\ (forall d es, NH0 d es <> []) /\ guarded NH0 true [] h_diamond /\
-  10 <=? length (snd (grun NH0 true id_oracle [] [] h_diamond)) = true.
+  oracle_ok id_oracle /\ guarded NH0 true false [] h_diamond /\
+  10 <=? length (snd (grun NH0 true false id_oracle [] [] h_diamond)) = true.
 Proof.
-  split; [apply id_oracle_ok|]. split; [apply NH0_truthy|].
-  split; [apply (guarded_b_sound NH0 true cands0); vm_compute; reflexivity|]. vm_compute. reflexivity.
+  split; [apply id_oracle_ok|].
+  split; [apply (guarded_b_sound NH0 true false cands0); vm_compute; reflexivity|]. vm_compute. reflexivity.
 Qed.
